@@ -364,8 +364,15 @@ pub fn check(scn: &dyn Scenario, opts: &CheckOpts) -> i32 {
             continue;
         }
         if !ok {
-            eprintln!("HARNESS ERROR: replay of {} in a fresh process did not reproduce the violation", path);
-            return 2;
+            // The tree may carry a source of nondeterminism that the sampled re-executions did not touch.
+            // The violation happened against the real code; it is reported if its class shows again in a
+            // fresh process (a few tries), and the run is flagged as not exactly repeatable.
+            if replay_in_fresh_process(&path, true) {
+                eprintln!("WARNING: {} reproduces its violation class in a fresh process but not on every try: this tree is not deterministic under the simulator", path);
+            } else {
+                eprintln!("HARNESS ERROR: replay of {} in a fresh process did not reproduce the violation", path);
+                return 2;
+            }
         }
         println!("violation class={} run={} detail={}", f.class, f.index, detail);
         println!("VIOLATION property={} replay={}", prop, path);
